@@ -53,6 +53,11 @@ class _OffsetParseBucket(_ParseBucket[Offset]):
         )
         if self._is_negative:
             seconds = -seconds
+        # The hour field accepts 0-23, but an Offset is limited to +/- 18 hours: report a parse failure rather than raising.
+        if seconds < Offset.min_value.seconds or seconds > Offset.max_value.seconds:
+            return ParseResult[Offset]._for_invalid_value_post_parse(
+                value, _TextErrorMessages.OVERALL_VALUE_OUT_OF_RANGE, Offset.__name__
+            )
         return ParseResult[Offset].for_value(Offset.from_seconds(seconds))
 
 
